@@ -160,4 +160,25 @@ PROPS["C13"] = {
     "level_note": "No schedule exploration; opaque waste content; default digester table; engine and z3 trusted.",
 }
 
+PROPS["C14"] = {
+    "contracts": ["contracts/C14_coordination.py"],
+    "level": "other",
+    "extra": [{"name": "C14/bounded[fault injection, lists<=3]", "kind": "bounded", "tiers": ("quick",), "cmd": ["/venv/bin/python", "native/c14_bounded.py", "3"]},
+              {"name": "C14/bounded[fault injection, lists<=4]", "kind": "bounded", "tiers": ("thorough",), "cmd": ["/venv/bin/python", "native/c14_bounded.py", "4"]}],
+    "assumptions": ["the heap is record-based: universally quantified claims over the resource registry ('no registered resource is owned by op') are assembled from a "
+                    "per-resource loop step clause (each tracked lock is no longer owned by the operation after its turn) plus the trusted fact that the loop visits every tracked id; "
+                    "the quantified form itself is only checked by the bounded stand-in",
+                    "tracked locks alias the registered locks (ctx.acquired_resources[r] is controller.resources[r]); registry keyed by each lock's own id",
+                    "work_fn / validate_fn / checkpoints (controller.advance) are havocked; DependencyGraph updates and waiting-list maintenance are frame-only collaborators here (C15)",
+                    "IntegratedCell.execute and the watchdog's timed kills reach the controller only through abort_operation, whose contract is proved"],
+    "trusted_base": ["for-over-keys visits every key", "dataclass construction"],
+    "explanation": "Deductive part: ResourceLock.try_acquire/release against their state machine with the invariant owner is None iff hold_count == 0; acquire_resource; "
+                   "release_all_resources (per tracked lock: not owned by the operation afterwards — the clause that fails with hold_count=2); complete/abort (operation "
+                   "removed, release_all called); execute_operation: on EVERY exit path exactly one of complete/abort has been called, no exception escapes, work runs at "
+                   "most once and only after all acquisitions, validation only after completed work and on its result, success only if both succeeded. Bounded part: fault "
+                   "injection over resource lists (with repeats, foreign holders, preemption) and kill/shutdown on the real system.",
+    "level_text": "Mixed: per-function deductive contracts over all inputs/callback behaviours + bounded fault injection for the registry-wide quantified claim.",
+    "level_note": "Record heap (no quantification over the registry); callbacks havocked; engine and z3 trusted.",
+}
+
 NOT_APPLICABLE = {}
